@@ -17,44 +17,48 @@ from harness.lib.core import VERIF, Ctx, Rng, lean_lock, run_driver
 from harness.rigs import config as R
 
 MANIFEST = {
-    "text": "Lean 4 proof about an executable model of the scenario loader (PrimaiteGame.from_config with the computer/server/printer/"
-            "switch/router/firewall from_config paths, software install, users, folders/files, links, agents with action maps): for EVERY "
-            "well-formed scenario AST the loader builds exactly the inventory the configuration documentation declares - nodes and "
-            "their attributes, interfaces and addresses, ACL rules at their stated positions (incl. the six firewall ACLs), routes, "
-            "software with options, users, folders/files, links with bandwidths, agents - EACH IN ITS DECLARED INITIAL STATE: the node in "
-            "its declared operating state (ON/OFF/BOOTING/SHUTTING_DOWN), every piece of software RUNNING iff its node is ON with the "
-            "configured starting health (for every combination of constructor-starts-it / service-or-application / configured-or-system "
-            "software), every interface wired iff a link of the file ends at it and enabled iff wired and its node ON (the links loop "
-            "with connect_link's refusal of a second link is followed and proved equal to the closed form) "
-            "(C20_build_eq_declared, full strength; C20_software_one_instance_per_name and C20_software_initial_state for EVERY node "
-            "entry, well-formed or not; C20_configured_application_wins); for EVERY permutation of the entries of EVERY mapping "
-            "(network_interfaces, router ports, firewall ports, acl at both levels, action maps) the loader builds the same simulation "
-            "or raises the same error (C20_key_order_irrelevant, one lemma per mapping-iteration site of the regenerated site "
-            "inventory; the ACL site reuses C07_add_commute); an episode schedule assembles variants(n mod len) then the base scenario "
-            "(C20_schedule_assembles/_periodic/_key_order); the office-lan node set: a Lean model of OfficeLANAdder's loop builds, for "
-            "EVERY num_pcs / subnet / address block / router option / bandwidth, exactly the documented structure "
-            "(C20_office_build_eq_declared; _pc_wired, _pc_addressed, _addresses, _edge_uplinks, _router, _ports_distinct, "
-            "_invalid_refused). Tie: Gen/Config.lean (site inventory, default constants, system-software tables, firewall ACL table, "
-            "scheduler shape AND freshness (returns the object it has just parsed, stores nothing, no field to cache in), no loader "
-            "function consumes the mapping it is given, every software constructor applies configured options by plain assignment "
-            "(table of live attributes), shape of install/uninstall, office-lan constants / templates / wiring calls) + rig R-cfg: "
-            "generated scenario families, software-matrix scenarios (every configurable software type x non-default options x declared "
-            "operating state of the node) and every shipped scenario -> real from_config -> inventory walked from the object graph "
-            "(option EFFECTS read off the live attributes, initial states) diffed with the driver's build and declared; the same mapping "
-            "built a second time; environments built from a user-held mapping; schedule directories used the way reset() does (one "
-            "scheduler, episodes past the end, every combination built twice, answers handed straight to the loader, freshness probe, "
-            "real environment resets); permuted / reversed / re-serialised / aliased / merge-key / commented / quoted-integer files "
-            "compared by inventory and by seeded trajectory digest; office-lan node sets (incl. refused ones) diffed with the Lean adder. "
-            "PARTIAL: wireless routers, airspace, the defaults section, the observation space and reward sharing are outside the Lean "
-            "model; option mappings are atoms in the model (their effect on live attributes is a rig oracle + the Gen table); the game "
-            "section, the YAML text join of schedules and whole-scenario behaviour are checked by rig oracles, not theorems; after "
-            "reset() every node is powered on (F-31, not claimed: states are compared at load time).",
-    "note": "C20-specific: WellFormed now also asks for unique hostnames (needed to say which node a link end belongs to). "
-            "declared shares with build the list of install requests and the ascending-key order of extra NICs.",
+    "text": "Lean 4 proof about an executable model of the scenario loader (PrimaiteGame.from_config: game options, airspace capacities, "
+            "the defaults section, nodes of type computer/server/printer/switch/router/firewall/wireless-router through their "
+            "from_config paths, software install, users, folders/files, office-lan node sets (the adder's loop), links, agents with "
+            "action maps): for EVERY well-formed scenario AST the loader builds exactly the inventory the file declares "
+            "(C20_build_eq_declared, full strength) - nodes with attributes and durations (own value, else the defaults section's, else "
+            "the library's), interfaces and addresses, wireless access points with their frequency, ACL rules at their stated "
+            "positions, routes, software with options, users, folders/files, links with bandwidths incl. 0 (node-set links first), "
+            "agents, game options, capacity of every airspace frequency - EACH IN ITS DECLARED INITIAL STATE (node in its declared "
+            "operating state; software RUNNING iff its node is ON with the configured starting health; a wired interface wired iff a "
+            "link of the file or of a node set ends at it and enabled iff wired and node ON; an access point enabled iff node ON). "
+            "OPTIONS: the option mapping of a software entry is carried as a mapping; the model constructs the live attributes by "
+            "folding the REGENERATED table of constructor assignments (class, attribute, option) over the constructor chain of the "
+            "software and reads every declared option off the attribute that carries it: C20_live_option_eq_declared (for every "
+            "software name and every mapping the value read is the declared one) and C20_live_attribute_per_class; only pydantic's "
+            "handling of the schema's keyword arguments is trusted. SPECIFICATION: `declared` is the closed form of the loader; "
+            "`spec` (software = the SET of names each with the options of the last entry naming it; NIC number k carries the entry "
+            "under key k) shares no helper with the loader model and C20_declared_meets_spec / C20_build_meets_spec prove them equal up "
+            "to the order of software (C20_software_meets_spec for EVERY node entry; C20_nics_by_key). Also: C20_software_one_instance_"
+            "per_name, C20_software_initial_state (every node entry, well-formed or not), C20_key_order_irrelevant (every mapping incl. "
+            "airspace capacities; one lemma per mapping-iteration site of the regenerated site inventory), C20_schedule_assembles/"
+            "_periodic/_key_order, the office-lan theorems (C20_office_build_eq_declared and the structure theorems) which now also "
+            "hold INSIDE build. Tie: Gen/Config.lean (site inventory; constants; system-software, firewall-ACL, frequency tables; "
+            "assignment table and constructor chains of every software class; every key of the defaults section with the statement "
+            "that applies it; the keys the eight ACL rule loops read (both address spellings, each wildcard mask from its own key); "
+            "wireless-router ports and sections; scheduler shape and freshness; no loader consumes its argument; install/uninstall "
+            "shape; office-lan constants and wiring calls) + rig R-cfg: generated families, software-matrix scenarios, `enrich`ed "
+            "scenarios (defaults, wireless router + airspace, node set with a cross link, documented ACL keys, bandwidth 0) and EVERY "
+            "shipped scenario (none is outside the model any more) -> real from_config -> inventory walked from the object graph "
+            "(option effects read off live attributes, initial states, type-strict durations) diffed with the driver's build, declared "
+            "AND spec; second build from the same mapping; environments from a user-held mapping; schedule directories used as reset() "
+            "uses them; permuted / reversed / re-serialised / aliased / merge-key / commented / quoted-integer files; per KIND of integer "
+            "site a quoted-integer variant must build the identical simulation or be refused loudly. PARTIAL: observation-space "
+            "construction and reward sharing are outside the model; pydantic's coercions are trusted; after reset() every node is "
+            "powered on (F-31, not claimed: states are compared at load time).",
+    "note": "C20-specific: WellFormed asks for unique hostnames over nodes AND node-set nodes, unique option keys, registered "
+            "frequencies, valid node sets; the spec theorem additionally asks that network_interfaces keys are the NIC numbers 2..m+1. "
+            "A quoted integer is a YAML string: a loud refusal (router ports keys, link endpoint ports, listen_on_ports entries) is not "
+            "counted as a formatting-only difference; building something else would be.",
     "technique": "Lean 4 theorems over an executable loader model; regenerated site inventory and tables; differential inventory rig",
     "design_ref": "5/C20",
 }
-MODULES = ["PrimaiteModel.Props.C20", "PrimaiteModel.Props.C20Office"]
+MODULES = ["PrimaiteModel.Props.C20", "PrimaiteModel.Props.C20Office", "PrimaiteModel.Props.C20Spec"]
 EXE = "drv_c20"
 KEEP = ()  # every mapping is permuted, at every level (F-29, which made `action_probabilities` order-sensitive, is repaired)
 # test assets that are not well-formed scenario files: one needs a plug-in node type, one has `agent_settings:` null
@@ -159,6 +163,11 @@ def check_scenario(cfg: Dict, model_out: Optional[Tuple[str, str]], twice: bool 
         if d != inv:
             oi, od = [l for l in inv if l not in d], [l for l in d if l not in inv]
             fails.append(dict(_classify(oi, od), only_impl=oi[:6], only_declared=od[:6]))
+        if len(model_out) > 2:
+            sp = R.split_inventory(model_out[2])
+            if sp != inv:
+                oi, od = [l for l in inv if l not in sp], [l for l in sp if l not in inv]
+                fails.append(dict(_classify(oi, od), kind="spec-vs-built", only_impl=oi[:6], only_spec=od[:6]))
     return fails, inv
 
 
@@ -202,7 +211,7 @@ def check_env_twice(cfg: Dict, inv: List[str], resets: int = 1) -> Tuple[List[di
 
 
 def check_variants(cfg: Dict, inv: List[str], rng: Rng, digest_steps: int, n_variants: int = 3,
-                   formats: Optional[List[str]] = None) -> List[dict]:
+                   formats: Optional[List[str]] = None, digest_variants: int = 2) -> List[dict]:
     """Permuted / reversed / re-serialised copies, and the formatting-only re-writings named in `formats` (anchors and aliases,
     merge keys, comments, quoted integers), must build the same inventory and (digest_steps > 0) behave identically."""
     fails = []
@@ -228,7 +237,7 @@ def check_variants(cfg: Dict, inv: List[str], rng: Rng, digest_steps: int, n_var
     if digest_steps > 0:
         try:
             d0 = R.trajectory_digest(cfg, 7, digest_steps)
-            for name, v in variants[:2]:
+            for name, v in variants[:digest_variants]:
                 d1 = R.trajectory_digest(v, 7, digest_steps)
                 if d1 != d0:
                     fails.append({"kind": "key-order-changes-behaviour", "variant": name, "digest": [d0, d1]})
@@ -493,9 +502,9 @@ def replay(rec: dict) -> bool:
         lake_build([EXE])
     out = None
     try:
-        lines = ["reset"] + R.scenario_lines(cfg) + ["build", "declared"]
+        lines = ["reset"] + R.scenario_lines(cfg) + ["build", "declared", "spec"]
         o = run_driver(EXE, lines)
-        out = (o[-2], o[-1])
+        out = (o[-3], o[-2], o[-1])
     except R.Unmodelled:
         pass
     fails, inv = check_scenario(cfg, out)
@@ -577,16 +586,22 @@ def run(ctx: Ctx):
         cases.append((name, rec["cfg"] if rec.get("raw_keys") else _int_keys(rec["cfg"]), rec.get("digest_steps", 0)))
     # 2. generated families
     rng = ctx.rng.fork("scenarios")
-    n_gen = ctx.scale(15, 140)
+    n_gen = ctx.scale(12, 100)
     for k in range(n_gen):
         fam = G.FAMILIES[k % 3]
         cfg = G.gen_scenario(rng, size=1 + (k // 3) % 3, family=fam, shadowing=(k % 4 == 3), node_sets=False)
-        cases.append((f"gen:{k}:{fam}", cfg, ctx.scale(10, 20) if k % ctx.scale(7, 5) == 0 else 0))
+        steps = ctx.scale(8, 20) if k % ctx.scale(6, 5) == 0 else 0
+        if k % 3 != 2:   # two of three carry the round-4 sections (defaults, wireless router + airspace, node set, documented ACL keys)
+            cfg = G.enrich(cfg, rng, stepped=bool(steps))
+        cases.append((f"gen:{k}:{fam}", cfg, steps))
     # 2b. software matrix: every software type x non-default options x declared operating state of the node
     mrng = ctx.rng.fork("matrix")
-    for k in range(ctx.scale(10, 90)):
+    for k in range(ctx.scale(9, 60)):
         cfg = G.gen_software_matrix(mrng, size=1 + k % 3)
-        cases.append((f"matrix:{k}", cfg, ctx.scale(8, 16) if k % ctx.scale(5, 4) == 0 else 0))
+        steps = ctx.scale(8, 16) if k % ctx.scale(5, 4) == 0 else 0
+        if k % 2 == 1:
+            cfg = G.enrich(cfg, mrng, stepped=bool(steps))
+        cases.append((f"matrix:{k}", cfg, steps))
     # 3. shipped single-file scenarios
     shipped = scen.shipped()
     for name, path in shipped.items():
@@ -626,7 +641,7 @@ def run(ctx: Ctx):
     spans: Dict[str, Tuple[int, int]] = {}
     for name, cfg, _ in cases:
         try:
-            ls = ["reset"] + R.scenario_lines(cfg) + ["build", "declared"]
+            ls = ["reset"] + R.scenario_lines(cfg) + ["build", "declared", "spec"]
         except R.Unmodelled as u:
             ctx.count("unmodelled:" + str(u).split(" [")[0][:40])
             continue
@@ -644,7 +659,7 @@ def run(ctx: Ctx):
                str(sched_bad[:2]))
     # implementation side
     agree = modelled = 0
-    env_budget = ctx.scale(8, 60)
+    env_budget = ctx.scale(6, 50)
     f31_total = 0
     for idx, (name, cfg, steps) in enumerate(cases):
         kind = name.split(":")[0]
@@ -652,7 +667,7 @@ def run(ctx: Ctx):
         mo = None
         if name in spans:
             st, ln = spans[name]
-            mo = (out[st + ln - 2], out[st + ln - 1])
+            mo = (out[st + ln - 3], out[st + ln - 2], out[st + ln - 1])
             modelled += 1
             ctx.cov["traces_validated_against_impl"] += 1
         small = kind in ("gen", "matrix", "corpus") or not name.startswith(("shipped:uc7", "scheduled:uc7"))
@@ -661,6 +676,14 @@ def run(ctx: Ctx):
             ctx.count("second-build-from-same-mapping")
             ctx.cov["evaluations"] += 1
         summ = G.summary(cfg) if "simulation" in cfg else {}
+        netc = cfg.get("simulation", {}).get("network", {}) if "simulation" in cfg else {}
+        for flag, present in (("defaults-section", bool(cfg.get("defaults"))), ("node-set-in-scenario", bool(netc.get("node_sets"))),
+                              ("airspace-capacities", bool((netc.get("airspace") or {}).get("frequency_max_capacity_mbps"))),
+                              ("wireless-router", any(n.get("type") == "wireless-router" for n in netc.get("nodes") or [])),
+                              ("documented-acl-keys", "src_ip_address" in json.dumps(netc) or "dst_ip_address" in json.dumps(netc)),
+                              ("bandwidth-0", any(l.get("bandwidth") == 0 for l in netc.get("links") or []))):
+            if present:
+                ctx.count("has:" + flag)
         off_hosts = [n for n in (cfg.get("simulation", {}).get("network", {}).get("nodes") or [])
                      if str(n.get("operating_state", "ON")).upper() not in ("ON", "TRUE") and n.get("operating_state") not in (None, "", False)
                      and (n.get("services") or n.get("applications"))]
@@ -679,13 +702,13 @@ def run(ctx: Ctx):
             fmts = None
             if kind in ("gen", "matrix") and name not in raw_corpus:
                 fmts = FORMATS if ctx.thorough else [FORMATS[idx % 4], FORMATS[(idx + 1) % 4]]
-            vf = check_variants(cfg, inv, ctx.rng.fork(name), steps, nv, fmts)
+            vf = check_variants(cfg, inv, ctx.rng.fork(name), steps, nv, fmts, digest_variants=ctx.scale(1, 2))
             ctx.cov["evaluations"] += nv + len(fmts or [])
             ctx.count("variants-checked", nv)
             for fm in fmts or []:
                 ctx.count("format-variant:" + fm)
             if steps:
-                ctx.count("digest-compared", 2)
+                ctx.count("digest-compared", ctx.scale(1, 2))
             fails += vf
             if kind in ("gen", "matrix") and env_budget > 0 and any(a.get("type") == "proxy-agent" for a in cfg.get("agents", [])) \
                     and (idx % 3 == 0 or ctx.thorough):
@@ -710,6 +733,31 @@ def run(ctx: Ctx):
         if kind in ("gen", "matrix") and len(ctx.cov["samples"]) < 4 and inv is not None and (kind == "matrix" or len(ctx.cov["samples"]) < 2):
             ctx.sample({"case": name, "summary": summ, "inventory_lines": len(inv), "first": inv[:3],
                         "a_software_line": next((l for l in inv if l.startswith("sw ") and "=" in l.split(" h=")[-1]), None)})
+    # quoted integers, one KIND of integer site at a time: the file either builds the identical simulation or is refused loudly
+    # (a quoted scalar is a string in YAML's data model; the loader may insist on an integer, it may not build something else)
+    qrng = ctx.rng.fork("quoted")
+    pool = [(nm, cfg) for nm, cfg, _ in cases if nm.split(":")[0] in ("gen", "matrix")]
+    for nm, cfg in qrng.shuffle(pool)[: ctx.scale(2, 16)]:
+        game, f = _load(cfg)
+        if f:
+            continue
+        inv = R.inventory(game, cfg)
+        for site, v in G.quoted_int_sites(cfg):
+            g2, f2 = _load(v)
+            ctx.cov["evaluations"] += 1
+            if f2:
+                ctx.count(f"quoted-integer:{site}:refused:{f2['exc']}")
+                continue
+            inv2 = R.inventory(g2, cfg)
+            if inv2 == inv:
+                ctx.count(f"quoted-integer:{site}:same")
+            else:
+                diff = sorted(set(inv) ^ set(inv2))
+                ctx.count(f"quoted-integer:{site}:DIFFERENT")
+                ctx.violation({"kind": "quoted-integer-builds-another-simulation", "site": site},
+                              f"{nm}: quoted integers at '{site}' build another simulation: {diff[:4]}",
+                              {"mode": "scenario", "cfg": v, "digest_steps": 0, "raw_keys": True, "from": nm, "site": site,
+                               "expected_inventory_of": cfg})
     ctx.count("nodes-not-in-declared-state-after-reset (F-31, not claimed)", f31_total)
     ctx.oblige("rig:R-cfg the modelled loader (Lean build) agrees with the real inventory on every modelled scenario", "correspondence",
                agree == modelled, f"{modelled - agree} of {modelled} scenarios disagree")
